@@ -360,6 +360,7 @@ func (t *Terminfo) TParm(s string, p ...interface{}) string {
 	)
 
 	skip := emit
+	nest := 0
 
 	for {
 
@@ -380,14 +381,23 @@ func (t *Terminfo) TParm(s string, p ...interface{}) string {
 			// XXX Error
 			break
 		}
-		if skip == toEnd {
-			if ch == ';' {
-				skip = emit
-			}
-			continue
-		} else if skip == toElse {
-			if ch == 'e' || ch == ';' {
-				skip = emit
+		if skip != emit {
+			// While skipping, conditionals that open inside the skipped
+			// text must be matched, so that their %e and %; are not
+			// mistaken for ours.
+			switch ch {
+			case '?':
+				nest++
+			case ';':
+				if nest > 0 {
+					nest--
+				} else {
+					skip = emit
+				}
+			case 'e':
+				if nest == 0 && skip == toElse {
+					skip = emit
+				}
 			}
 			continue
 		}
